@@ -2,6 +2,7 @@ package main
 
 import (
 	"fmt"
+	"os"
 	"go/constant"
 	"go/token"
 	"go/types"
@@ -99,9 +100,14 @@ type FuncVC struct {
 	localDone map[string]bool
 	assertsSeen map[string]bool
 	allocs    map[string]*Val // address-taken locals by source name
+	defBlock  map[string]*ssa.BasicBlock // block in which a named local was (last) bound
+	curBlock  *ssa.BasicBlock
+	localNames map[string]bool
+	dcalls    []*delegCall
 	sites     []string
 	siteOrd   map[*ssa.Call]int // ordinal of a call among the calls to the same callee, in source order
 	debugVals map[string]SVal // most recent value bound to a source-level local (go/ssa debug info)
+	bindings  map[string][]binding // all bindings of source-level locals, by defining block
 }
 
 type loopHead struct {
@@ -310,8 +316,7 @@ func (vc *FuncVC) toSVal(x *Val, t types.Type) SVal {
 		sl := t.Underlying().(*types.Slice)
 		return SVal{T: x.Elems[0].T, Len: x.Elems[1].T, Ty: SType{K: KSlice, Elem: sl.Elem()}}
 	case vAgg:
-		// expose aggregates through a temporary object? not needed in specs so far
-		return SVal{T: IntLit(0), Ty: SType{K: KInt}}
+		return SVal{T: IntLit(0), Ty: SType{K: KStruct, Elem: t}, Flat: x.Flat}
 	}
 	return SVal{T: IntLit(0), Ty: SType{K: KInt}}
 }
@@ -333,7 +338,7 @@ func (vc *FuncVC) loadLoc(st *State, l *Loc) *Val {
 		n := vc.load(st, l.Key+"#len", l.Idx, SInt)
 		pv := vc.define("sl_ptr", p)
 		nv := vc.define("sl_len", n)
-		vc.assume(And(Ge(nv, IntLit(0)), Ge(pv, IntLit(0))))
+		vc.assume(And(Ge(nv, IntLit(0)), Ge(pv, IntLit(0)), Implies(Gt(nv, IntLit(0)), Gt(pv, IntLit(0)))))
 		return &Val{Kind: vSlice, Elems: []*Val{{T: pv}, {T: nv}}, GoType: l.Slice}
 	}
 	if strings.HasPrefix(l.Key, "global.") {
@@ -425,7 +430,7 @@ func NewFuncVC(W *World, fn *ssa.Function, fc *FuncContract) *FuncVC {
 		vals: map[ssa.Value]*Val{}, reach: map[*ssa.BasicBlock]Term{}, out: map[*ssa.BasicBlock]*State{},
 		edges: map[[2]int]Term{}, params: map[string]SVal{}, callOrd: map[string]int{}, nonnil: map[ssa.Value]bool{},
 		loopOrd: map[*ssa.BasicBlock]int{}, loopBody: map[*ssa.BasicBlock]map[*ssa.BasicBlock]bool{}, backEdge: map[[2]int]bool{},
-		headerSt: map[*ssa.BasicBlock]*loopHead{}, uncontracted: map[string]bool{}, trustedUsed: map[string]bool{}, ordCount: map[string]int{}, localDone: map[string]bool{}, assertsSeen: map[string]bool{}, allocs: map[string]*Val{}, debugVals: map[string]SVal{}}
+		headerSt: map[*ssa.BasicBlock]*loopHead{}, uncontracted: map[string]bool{}, trustedUsed: map[string]bool{}, ordCount: map[string]int{}, localDone: map[string]bool{}, assertsSeen: map[string]bool{}, allocs: map[string]*Val{}, debugVals: map[string]SVal{}, bindings: map[string][]binding{}, defBlock: map[string]*ssa.BasicBlock{}}
 	return vc
 }
 
@@ -550,6 +555,9 @@ func (vc *FuncVC) analyseCFG() []*ssa.BasicBlock {
 func (vc *FuncVC) Generate() (err error) {
 	defer func() {
 		if r := recover(); r != nil {
+			if os.Getenv("APDVC_DEBUG") != "" {
+				panic(r)
+			}
 			err = fmt.Errorf("%s: %v", vc.name, r)
 		}
 	}()
@@ -584,6 +592,8 @@ func maxFreshIn(s string) int {
 }
 
 type snapshot struct {
+	nbind                                                 map[string]int
+	allocs                                                map[string]*Val
 	nfacts, ndecls, nfresh, nobls, nwrites, nunsup, nnotes int
 	vals                                                  map[ssa.Value]*Val
 	declared                                              map[string]bool
@@ -610,6 +620,14 @@ func (vc *FuncVC) snap() *snapshot {
 	for k, v := range vc.callOrd {
 		s.callOrd[k] = v
 	}
+	s.nbind = map[string]int{}
+	for k, v := range vc.bindings {
+		s.nbind[k] = len(v)
+	}
+	s.allocs = map[string]*Val{}
+	for k, v := range vc.allocs {
+		s.allocs[k] = v
+	}
 	return s
 }
 
@@ -627,6 +645,10 @@ func (vc *FuncVC) restore(s *snapshot) {
 	vc.touched = s.touched
 	vc.ordCount = s.ordCount
 	vc.callOrd = s.callOrd
+	for k, v := range vc.bindings {
+		vc.bindings[k] = v[:s.nbind[k]]
+	}
+	vc.allocs = s.allocs
 }
 
 // processBlocks symbolically executes the blocks in a topological order of
@@ -729,7 +751,7 @@ func (vc *FuncVC) enterBlock(b *ssa.BasicBlock) {
 		}
 		vc.vals[phi] = vc.mergePhi(phi, b, conds, preds)
 		if phi.Comment != "" && vc.vals[phi].Kind == vScalar {
-			vc.debugVals[phi.Comment] = vc.toSVal(vc.vals[phi], phi.Type())
+			vc.bind(phi.Comment, b, vc.toSVal(vc.vals[phi], phi.Type()))
 		}
 	}
 }
@@ -827,6 +849,7 @@ func (vc *FuncVC) loopVars(h *ssa.BasicBlock, get func(phi *ssa.Phi) *Val) map[s
 }
 
 func (vc *FuncVC) enterLoop(h *ssa.BasicBlock, order []*ssa.BasicBlock) {
+	vc.curBlock = h
 	k := vc.loopOrd[h]
 	stIn, reach, conds, preds := vc.forwardIn(h)
 	vc.reach[h] = reach
@@ -840,7 +863,7 @@ func (vc *FuncVC) enterLoop(h *ssa.BasicBlock, order []*ssa.BasicBlock) {
 		}
 		entryPhis[phi] = vc.mergePhi(phi, h, conds, preds)
 	}
-	envIn := vc.env(stIn, vc.loopVars(h, func(p *ssa.Phi) *Val { return entryPhis[p] }))
+	envIn := vc.env(stIn, vc.withLocals(vc.loopVars(h, func(p *ssa.Phi) *Val { return entryPhis[p] })))
 	for j, inv := range vc.fc.Invs[k] {
 		t := envIn.boolean(inv.E)
 		vc.oblige("L", fmt.Sprintf("loop%d/inv%d/entry", k, j+1), reach, t, clauseTags(inv, tags), h.Instrs[0].Pos(), inv.Src)
@@ -918,9 +941,18 @@ func (vc *FuncVC) enterLoop(h *ssa.BasicBlock, order []*ssa.BasicBlock) {
 		vc.vals[phi] = vc.freshVal("lphi_"+phi.Name(), phi.Type())
 	}
 	lh.phis = vc.loopVars(h, func(p *ssa.Phi) *Val { return vc.vals[p] })
-	envH := vc.env(st, lh.phis)
+	envH := vc.env(st, vc.withLocals(lh.phis))
 	for _, inv := range vc.fc.Invs[k] {
 		vc.assume(Implies(reach, envH.boolean(inv.E)))
+	}
+	for _, h := range vc.fc.LoopHints[k] {
+		if call, ok := h.E.(*ECall); ok {
+			if lm := vc.W.spec.lemma(call.Fn); lm != nil {
+				vc.assume(instantiateLemma(envH, lm, call.Args))
+				continue
+			}
+		}
+		panic("loop hint must be a lemma application: " + h.Src)
 	}
 	if d := vc.fc.Decr[k]; d != nil {
 		lh.measure = vc.define("measure", envH.integer(d.E))
@@ -966,7 +998,7 @@ func (vc *FuncVC) backEdgeChecks(u, h *ssa.BasicBlock, cond Term) {
 		}
 		return nil
 	})
-	env := vc.env(st, vars)
+	env := vc.env(st, vc.withLocals(vars))
 	tags := vc.propTags()
 	for j, inv := range vc.fc.Invs[k] {
 		t := env.boolean(inv.E)
@@ -1025,13 +1057,31 @@ func instantiateLemma(e *Env, lm *Lemma, args []Expr) Term {
 // localVars exposes address-taken locals (by source name) as references.
 func (vc *FuncVC) localVars() map[string]SVal {
 	m := map[string]SVal{}
-	for name, v := range vc.debugVals {
-		if _, clash := vc.params[name]; !clash {
-			m[name] = v
+	visible := func(name string) bool {
+		b := vc.defBlock[name]
+		return b == nil || vc.curBlock == nil || b == vc.curBlock || b.Dominates(vc.curBlock)
+	}
+	for name, bs := range vc.bindings {
+		if _, clash := vc.params[name]; clash {
+			continue
+		}
+		// the binding made in the closest dominating block (last one within a block)
+		var best *binding
+		for i := range bs {
+			b := &bs[i]
+			if vc.curBlock != nil && b.blk != vc.curBlock && !b.blk.Dominates(vc.curBlock) {
+				continue
+			}
+			if best == nil || best.blk == b.blk || best.blk.Dominates(b.blk) {
+				best = b
+			}
+		}
+		if best != nil {
+			m[name] = best.v
 		}
 	}
 	for name, v := range vc.allocs {
-		if _, clash := vc.params[name]; clash {
+		if _, clash := vc.params[name]; clash || !visible("&"+name) {
 			continue
 		}
 		switch v.Kind {
@@ -1047,6 +1097,26 @@ func (vc *FuncVC) localVars() map[string]SVal {
 }
 
 func (vc *FuncVC) numberSites() {
+	vc.localNames = map[string]bool{}
+	for _, l := range vc.fn.Locals {
+		if l.Comment != "" {
+			vc.localNames[l.Comment] = true
+		}
+	}
+	for _, b := range vc.fn.Blocks {
+		for _, ins := range b.Instrs {
+			switch ins := ins.(type) {
+			case *ssa.Alloc:
+				if ins.Comment != "" {
+					vc.localNames[ins.Comment] = true
+				}
+			case *ssa.DebugRef:
+				if ins.Object() != nil {
+					vc.localNames[ins.Object().Name()] = true
+				}
+			}
+		}
+	}
 	vc.siteOrd = map[*ssa.Call]int{}
 	by := map[string][]*ssa.Call{}
 	for _, b := range vc.fn.Blocks {
@@ -1089,4 +1159,31 @@ func (vc *FuncVC) goalLocal(f func() Term) (Term, []string) {
 	}
 	vc.touched = touched
 	return t, extra
+}
+
+type delegCall struct {
+	reach Term
+	args  []SVal
+	res   *Val
+	after *State
+	pos   token.Pos
+}
+
+// withLocals adds the address-taken locals (and the most recent debug bindings) below the given variables.
+func (vc *FuncVC) withLocals(vars map[string]SVal) map[string]SVal {
+	m := vc.localVars()
+	for k, v := range vars {
+		m[k] = v
+	}
+	return m
+}
+
+type binding struct {
+	blk *ssa.BasicBlock
+	v   SVal
+}
+
+func (vc *FuncVC) bind(name string, b *ssa.BasicBlock, v SVal) {
+	vc.debugVals[name] = v
+	vc.bindings[name] = append(vc.bindings[name], binding{b, v})
 }
